@@ -65,6 +65,12 @@ add("C11", "exploration",
     "Trusts the layout generator's position map (self-tested; a wrong map shows up as a violation on the unchanged tree, not as silence). Layout text the parser does not read back as the generated value is counted and excluded (that is C12/C13's subject); >2% exclusions make the run inconclusive.",
     "DESIGN.md section 4/C11")
 
+add("C12", "exploration",
+    "generated datum sequences with generated trivia, metamorphic trivia insertion, bounded four-way iteration over arbitrary input, and call histories against a queue model",
+    "Exploration over inputs and histories: value sequences in both dialects joined by generated trivia (every whitespace byte, comments, final comment without newline); a metamorphic relation (same tokens, different trivia => same value); arbitrary malformed input iterated in all four ways, continuing after errors, under an explicit cap of len+2 items so that non-termination is observed, not suffered; and generated interleavings of the eight read operations on one parser checked against a queue model (stateful testing as vec(op) + interpreter, shrunk as one value).",
+    "A cap proves termination only for the inputs tried. After an error the model only requires termination and absence of panics.",
+    "DESIGN.md section 4/C12")
+
 NOT_YET = {}
 
 def main():
